@@ -168,14 +168,15 @@ def run(ctx: Ctx) -> None:
     finally:
         drv.close()
     ctx.partial += [
-        "PROVED for the modelled sub-parser (code, fence, blockquote, hr, heading, paragraph; C06c.quote_law): for every "
+        "PROVED for the modelled sub-parser (code, fence, blockquote, hr, list, heading, paragraph; C06c.quote_law for the chains "
+        "without lists, C06d.l_quote_law with lists — quotes and lists nested in each other, tight/loose, ordered, empty items): for every "
         "tab-free document D given by its lines, every subset of the optional rules and every maxNesting >= 0, quoting "
         "every line parses (with one more level allowed) to exactly one block quote over all lines whose content is the "
         "stream of D with level+1 and the same maps. Method: simulation (C06b) — bsCount is never read on tab-free "
         "tables, level and maxNesting shift together — instantiated with the lines the quote rule presents to its "
         "nested run (quoteStrip of '> ' ++ l equals the line record of l up to bsCount).",
-        "NOT PROVED: the list law, the law for rules outside the sub-parser (lheading, reference, html_block, table, "
-        "list inside the quoted document), documents with tabs, and the same-maxNesting form of the law (it differs at "
+        "NOT PROVED: the list law, the law for rules outside the sub-parser (lheading, reference, html_block, table), "
+        "documents with tabs, and the same-maxNesting form of the law (it differs at "
         "the nesting limit): decided by the oracle on the implementation",
     ]
 
